@@ -4,6 +4,10 @@ import (
 	"go/constant"
 	"strconv"
 
+	"golang.org/x/tools/go/ssa"
+
+	"utilcheck/flow"
+
 	"utilcheck/tab"
 )
 
@@ -33,4 +37,30 @@ func tabConstInt(e *Env, pkg, name string) (int64, bool) {
 		return 0, false
 	}
 	return constant.Int64Val(v)
+}
+
+// globalIntInit returns the constant a package-level integer variable is initialised with (declaration value;
+// a variable without an init-time Store keeps its zero value).
+func (e *Env) globalIntInit(g *ssa.Global) (int64, bool) {
+	found, val := false, int64(0)
+	for fn := range e.C.AllRepoFuncs() {
+		for _, b := range fn.Blocks {
+			for _, in := range b.Instrs {
+				st, ok := in.(*ssa.Store)
+				if !ok || st.Addr != ssa.Value(g) {
+					continue
+				}
+				if fn.Name() != "init" {
+					return 0, false // reassigned at run time by the module itself
+				}
+				k, ok := flow.ConstInt(st.Val)
+				if !ok {
+					return 0, false
+				}
+				found, val = true, k
+			}
+		}
+	}
+	_ = found
+	return val, true
 }
